@@ -717,13 +717,13 @@ def _matrix_cases(tier, seed):
         for code in range(n_matrices(3, True, ALPHA4)):
             out.append((3, True, code, diag))
     tot = n_matrices(3, False, ALPHA4)
-    stride = 1 if thorough else 8
+    stride = 1 if thorough else 16
     for diag in DIAGS:                       # N=3, all 4^6 (quick: every 8th)
         for code in range((seed % stride) if not thorough else 0, tot,
                           stride):
             out.append((3, False, code, diag))
     tot = n_matrices(4, True, ALPHA3)
-    stride = 1 if thorough else 6
+    stride = 1 if thorough else 12
     for diag in DIAGS:
         for code in range((seed % stride) if not thorough else 0, tot,
                           stride):
@@ -754,8 +754,8 @@ def run(ctx):
     depth = 3 if thorough else 2
     ctx.rule = (
         "step: similarity matrices N=3 over %s (all 4^3 symmetric and all 4^6 "
-        "general ones; quick: every 8th general) and N=4 symmetric over %s "
-        "(quick: every 6th), diagonal in %s, x 3 grids x directed x non_local;"
+        "general ones; quick: every 16th general) and N=4 symmetric over %s "
+        "(quick: every 12th), diagonal in %s, x 3 grids x directed x non_local;"
         " per case every threshold of the menu (realised plain and weighted "
         "values, midpoints, -1, 2) and every density %s as a construction and "
         "as setter calls on one object.  hist: all histories of length <= %d "
